@@ -27,6 +27,19 @@ Theorem C10_every_message_within : forall (lim ann : N) (cmd data : bytes) (pc :
 Proof. exact every_message_within. Qed.
 Print Assumptions C10_every_message_within.
 
+(* the two composed: from ANY pair of configured maxima, EVERY message of either side *)
+Theorem C10_both_directions : forall (own_r own_a : N) (cmd data : bytes) (pc : N),
+  NegotiationProofs.legal_max own_r -> NegotiationProofs.legal_max own_a ->
+  let n := negotiate own_r own_a in
+  (exists cs ds, dimse_encode cmd data pc (lim_r n) = Ok (cs ++ ds)
+     /\ concat_payload cs = cmd /\ concat_payload ds = data
+     /\ Forall (fun f => ann_a n = 0 \/ frag_pdu_length f <= ann_a n) (cs ++ ds))
+  /\ (exists cs ds, dimse_encode cmd data pc (lim_a n) = Ok (cs ++ ds)
+     /\ concat_payload cs = cmd /\ concat_payload ds = data
+     /\ Forall (fun f => ann_r n = 0 \/ frag_pdu_length f <= ann_r n) (cs ++ ds)).
+Proof. exact both_directions_within. Qed.
+Print Assumptions C10_both_directions.
+
 Example C10_example : negotiate 0 128 = mkneg 0 128 128 128 /\ negotiate 16384 0 = mkneg 16384 16384 16384 16384
                       /\ negotiate 0 0 = mkneg 0 0 0 0.
 Proof. repeat split. Qed.
